@@ -124,8 +124,8 @@ class Harness:
 
 
 # ------------------------------------------------------------------------------------ plans
-def op(name, seed, p0=-1, p1=-1, slot=-1, fault="none", fa=0, fb=0):
-    return {"name": name, "seed": seed & common.MASK, "p0": p0, "p1": p1, "slot": slot, "fault": fault, "fa": fa, "fb": fb}
+def op(name, seed, p0=-1, p1=-1, slot=-1, fault="none", fa=0, fb=0, vc=-1):
+    return {"name": name, "seed": seed & common.MASK, "p0": p0, "p1": p1, "slot": slot, "fault": fault, "fa": fa, "fb": fb, "vc": vc}
 
 
 def cfg(slot, budget, mode, state, flags):
@@ -141,7 +141,7 @@ def plan_text(runs):
             if "cfg" in o:
                 out.append("CFG %d %d %d %d %d" % tuple(o["cfg"]))
             else:
-                out.append("OP %s %d %d %d %d %s %d %d" % (o["name"], o["seed"], o["p0"], o["p1"], o["slot"], o["fault"], o["fa"], o["fb"]))
+                out.append("OP %s %d %d %d %d %s %d %d %d" % (o["name"], o["seed"], o["p0"], o["p1"], o["slot"], o["fault"], o["fa"], o["fb"], o.get("vc", -1)))
         out.append("END")
     return "\n".join(out) + "\n"
 
@@ -288,6 +288,21 @@ def gen_enumeration(h, rng, draws=1, faults=True):
             ops.append(op(n, rng.u64(), fault="alloceach" if faults else "none"))
             if faults and h.ops[n] & 1:
                 ops.append(op(n, rng.u64(), fault="sinkeach"))
+    return ops
+
+
+VALUE_CLASSES = 40
+
+
+def gen_value_classes(h, rng):
+    """every op instance with all numeric operands drawn from one special class (all zero, all max,
+    all denormal, all 0.5, ...): degenerate vectors, singular tensors, vanishing denominators"""
+    ops = []
+    for n in sorted(h.ops):
+        if h.ops[n] & 2:
+            continue
+        for vc in range(VALUE_CLASSES):
+            ops.append(op(n, rng.u64(), vc=vc))
     return ops
 
 
@@ -596,20 +611,23 @@ def main(tier, seed):
         return 2
     log("  determinism sample: %d plans x 2 worker assignments identical (%d op results)" % (len(det_runs), len(r1)))
     # 1. enumeration: every instance x every single-fault position
-    enum_ops = gen_enumeration(hs, rng, draws=(8 if thorough else 1))
+    enum_ops = gen_enumeration(hs, rng, draws=(10 if thorough else 2))
     execute("enumeration", hs.exe, chunked(enum_ops, 0))
     # 2. exhaustive selector sweeps (fault-free) + the same under allocation faults for a sample
     sweep = gen_sweeps(hs, cat)
     execute("sweeps", hs.exe, chunked(sweep, 100000))
     # 3. fault-free batch on its own (so the relaxation under faults can hide nothing)
-    ff = gen_enumeration(hs, rng, draws=(20 if thorough else 3), faults=False)
-    execute("fault-free", hs.exe, chunked(ff, 200000))
+    ff = gen_enumeration(hs, rng, draws=(300 if thorough else 24), faults=False)
+    execute("fault-free", hs.exe, chunked(ff, 200000, size=512))
+    vcs = gen_value_classes(hs, rng)
+    execute("value-classes", hs.exe, chunked(vcs, 250000, size=512))
     # 4. histories
     nplans = int(os.environ.get("VERIF_C20_PLANS", "200000" if thorough else "3000"))
     hist = gen_history(hs, rng, nplans)
     execute("histories", hs.exe, [(300000 + i, ops_) for i, ops_ in enumerate(hist)])
     # 5. uninitialised reads: plain build under memcheck, every instance once + the sweeps
     vg_ops = gen_enumeration(hp, rng, draws=(6 if thorough else 2), faults=False) + gen_sweeps(hp, cat)
+    vg_ops += [o for o in gen_value_classes(hp, rng) if thorough or o["vc"] in (0, 2, 5, 9)]
     parsers = sorted(n for n in hp.ops if hp.ops[n] & 2)
     vg_ops += [op(n, rng.u64()) for n in parsers for _ in range(200 if thorough else 20)]
     if thorough:
